@@ -100,6 +100,13 @@ type fdSide struct {
 	// identifiers made by the walker (the counter of a range-over-int loop written
 	// as a three-clause loop) -> their variable
 	synth map[*ast.Ident]types.Object
+	// unexported one-expression functions without a counterpart on the other side, read
+	// as their expression at each call (rules_rob3c.go)
+	// range loops over slices: not read as counting loops / some loop has been read so (rules_rob3c.go)
+	noRangeSlice, usedRangeSlice bool
+	transparent                  map[types.Object]*fdTransparentFn
+	// fork: callee -> argument positions passed as E.M() that upstream takes as E (method name)
+	liftArgs map[types.Object]map[int]string
 }
 
 // fdSingleDefs finds the locals of fd that are defined exactly once by a 1:1
@@ -381,6 +388,8 @@ type fdCtx struct {
 	// of == / != sorted) and locals are numbered after that, by first occurrence
 	// in the final text (used for the condition / assignment items)
 	canon bool
+	// bind: parameters of a transparent function being rendered -> the argument expressions
+	bind map[types.Object]ast.Expr
 	// w: the walker of the function being rendered (nil outside functions); its
 	// merged variables and storage aliases (see "expanded helper calls") apply
 	w *fdWalker
@@ -417,6 +426,13 @@ func (c *fdCtx) ident(id *ast.Ident) string {
 	}
 	if c.s.laxObjs[o] {
 		return "false"
+	}
+	if a, ok := c.bind[o]; ok {
+		saved := c.bind
+		c.bind = nil // the argument is an expression of the caller
+		s := c.expr(a)
+		c.bind = saved
+		return s
 	}
 	if p, ok := c.params[o]; ok {
 		return p
@@ -593,6 +609,28 @@ func (c *fdCtx) expr(e ast.Expr) string {
 		}
 		if c.plainErrorf(e) {
 			return "errors.New(" + c.exprs(args) + ")"
+		}
+		if t := c.s.transparent[c.calleeObj(e)]; t != nil && len(e.Args) == len(t.params) && !e.Ellipsis.IsValid() && c.bind == nil {
+			c.bind = map[types.Object]ast.Expr{}
+			for i, p := range t.params {
+				c.bind[p] = e.Args[i]
+			}
+			s := c.expr(t.body)
+			c.bind = nil
+			return s
+		}
+		if lift := c.s.liftArgs[c.calleeObj(e)]; lift != nil && len(args) == len(e.Args) {
+			var out []string
+			for i, a := range args {
+				if m, ok := lift[i]; ok {
+					if x := fdMethodCallOn(a, m); x != nil {
+						out = append(out, c.expr(x))
+						continue
+					}
+				}
+				out = append(out, c.expr(a))
+			}
+			return c.expr(e.Fun) + "(" + strings.Join(out, ", ") + ")"
 		}
 		return c.expr(e.Fun) + "(" + c.exprs(args) + ")"
 	case *ast.IndexExpr:
@@ -839,6 +877,10 @@ type fdCond struct {
 	pre   string // e.g. "!(", "for(", "sw("
 	exprs []ast.Expr
 	sep   []string // separators after each expr
+	// enc: the condition of an enclosing `if` whose body is being walked, still in
+	// force (nothing walked since has written what it reads): part of the condition
+	// items of the ifs nested in that body (rules_rob3c.go, "nested conditions")
+	enc bool
 }
 
 func (c *fdCtx) cond(k fdCond) string {
@@ -875,6 +917,10 @@ type fdWalker struct {
 	dry      int       // > 0: walking for the facts only (loop fixpoint), nothing is emitted
 	facts    *fdState
 	noFacts  map[types.Object]bool // address-taken or captured by a function literal
+	errTemps map[types.Object]bool // error temporaries currently read as their target (rules_rob3c.go)
+	// positions of the writes of each variable and the spans of the loops (lazily, rules_rob3c.go)
+	writePos  map[types.Object][]token.Pos
+	loopSpans [][2]token.Pos
 }
 
 var fdTmpLocal = regexp.MustCompile("\x00[0-9]+\x00")
@@ -916,6 +962,9 @@ func (w *fdWalker) lvalueBase(e ast.Expr) (types.Object, bool) {
 		o := info.Defs[e]
 		if o == nil {
 			o = info.Uses[e]
+		}
+		if o == nil {
+			o = w.s.synth[e]
 		}
 		if m, ok := w.merge[o]; ok {
 			o = m
@@ -980,13 +1029,15 @@ func (w *fdWalker) emit(kind string, head func(c *fdCtx) string, chain []fdCond,
 	}
 	c := w.ctx()
 	var parts []string
+	var flat []fdCond
 	for _, k := range chain {
-		for _, f := range fdFlatten(k) {
-			switch p := c.cond(f); p {
-			case "true", "!(false)":
-			default:
-				parts = append(parts, p)
-			}
+		flat = append(flat, fdFlatten(k)...)
+	}
+	for _, f := range w.dropImplied(flat) {
+		switch p := c.cond(f); p {
+		case "true", "!(false)":
+		default:
+			parts = append(parts, p)
 		}
 	}
 	h := head(c)
@@ -1167,8 +1218,13 @@ func fdLeavesSwitch(list []ast.Stmt) bool {
 
 func fdSwitchToIf(s *ast.SwitchStmt) ast.Stmt {
 	if s.Tag != nil {
-		return nil
+		return nil // (a switch over constants: see fdWalker.constSwitchToIf)
 	}
+	return fdSwitchToIfTag(s, nil)
+}
+
+// fdSwitchToIfTag: the clauses as an if / else-if chain; with tag != nil a case value v reads tag == v.
+func fdSwitchToIfTag(s *ast.SwitchStmt, tag ast.Expr) ast.Stmt {
 	var clauses []*ast.CaseClause
 	var def *ast.CaseClause
 	for _, cl := range s.Body.List {
@@ -1191,9 +1247,15 @@ func fdSwitchToIf(s *ast.SwitchStmt) ast.Stmt {
 	}
 	for i := len(clauses) - 1; i >= 0; i-- {
 		cc := clauses[i]
-		cond := cc.List[0]
+		test := func(e ast.Expr) ast.Expr {
+			if tag == nil {
+				return e
+			}
+			return &ast.BinaryExpr{X: tag, OpPos: e.Pos(), Op: token.EQL, Y: e}
+		}
+		cond := test(cc.List[0])
 		for _, e := range cc.List[1:] {
-			cond = &ast.BinaryExpr{X: cond, OpPos: e.Pos(), Op: token.LOR, Y: e}
+			cond = &ast.BinaryExpr{X: cond, OpPos: e.Pos(), Op: token.LOR, Y: test(e)}
 		}
 		tail = &ast.IfStmt{If: cc.Case, Cond: cond, Body: &ast.BlockStmt{Lbrace: cc.Colon, List: cc.Body, Rbrace: cc.End()}, Else: tail}
 	}
@@ -1269,7 +1331,19 @@ func fdWith(chain []fdCond, k ...fdCond) []fdCond {
 // stmts walks a statement list.  It reports whether control cannot reach the end
 // of the list (a statement left it on every path).
 func (w *fdWalker) stmts(list []ast.Stmt, chain []fdCond) bool {
+	skip := 0
 	for i, st := range list {
+		if skip > 0 {
+			skip--
+			continue
+		}
+		if n := w.freshCell(list, i, chain); n > 0 {
+			for _, x := range list[i : i+n] {
+				chain = w.staleAfter(chain, x)
+			}
+			skip = n - 1
+			continue
+		}
 		// the expansion of a helper call whose body runs once: `L: for { …; break L }`.
 		// Every `break L` continues with the statements that follow the block, so the
 		// block reads as its body with those statements in place of each `break L`.
@@ -1302,10 +1376,12 @@ func (w *fdWalker) stmts(list []ast.Stmt, chain []fdCond) bool {
 				}
 			}
 		}
+		w.errTemp(list, i)
 		dead, guards := w.stmt(st, chain)
 		if dead {
 			return true
 		}
+		chain = w.staleAfter(chain, st)
 		if len(guards) > 0 {
 			chain = fdWith(chain, guards...)
 		}
@@ -1317,6 +1393,11 @@ func (w *fdWalker) stmts(list []ast.Stmt, chain []fdCond) bool {
 // follow cannot execute (an `if true {…return}` left by partial evaluation)
 // and the guard conditions that hold for the following siblings, if any.
 func (w *fdWalker) stmt(st ast.Stmt, chain []fdCond) (dead bool, guards []fdCond) {
+	if sw, ok := st.(*ast.SwitchStmt); ok {
+		if n := w.constSwitchToIf(sw); n != nil {
+			st = n
+		}
+	}
 	return w.stmtN(fdNormStmt(st), chain)
 }
 
@@ -1365,6 +1446,8 @@ func (w *fdWalker) stmtN(st ast.Stmt, chain []fdCond) (dead bool, guards []fdCon
 					} else {
 						lp.conts = append(lp.conts, w.facts.clone())
 					}
+				} else if s.Tok == token.BREAK {
+					lp.brks = append(lp.brks, w.facts.clone()) // leaves the switch
 				}
 				break
 			}
@@ -1387,6 +1470,7 @@ func (w *fdWalker) stmtN(st ast.Stmt, chain []fdCond) (dead bool, guards []fdCon
 		}
 		if s.Init != nil {
 			w.stmt(s.Init, chain)
+			chain = w.staleAfter(chain, s.Init)
 		}
 		w.sitesIn(s.Cond, chain)
 		cv := w.ctx().expr(s.Cond)
@@ -1412,12 +1496,16 @@ func (w *fdWalker) stmtN(st ast.Stmt, chain []fdCond) (dead bool, guards []fdCon
 		case "true":
 			return w.stmts(s.Body.List, chain), nil
 		}
-		pos, neg := fdCondOf("", s.Cond, ""), fdCondOf("!(", s.Cond, ")")
-		w.emitCond(pos, s.Cond.Pos())
+		// (rendered without the conjuncts that what encloses / precedes them implies, see rules_rob3c.go)
+		rc := w.simplifyCond(s.Cond)
+		pos, neg := fdCondOf("", rc, ""), fdCondOf("!(", rc, ")")
+		w.emitIfCond(chain, pos, s.Cond.Pos())
 		f0 := w.facts
 		w.facts = f0.clone()
 		w.facts.assume(w, s.Cond, true)
-		tb := w.stmts(s.Body.List, fdWith(chain, pos))
+		posE := pos
+		posE.enc = true
+		tb := w.stmts(s.Body.List, fdWith(chain, posE))
 		fb := w.facts
 		w.facts = f0.clone()
 		w.facts.assume(w, s.Cond, false)
@@ -1440,7 +1528,7 @@ func (w *fdWalker) stmtN(st ast.Stmt, chain []fdCond) (dead bool, guards []fdCon
 		if s.Init != nil {
 			w.stmt(s.Init, chain)
 		}
-		in := fdWith(chain, fdCondOf("for(", s.Cond, ")"))
+		in := fdWith(w.staleAfter(chain, s), fdCondOf("for(", s.Cond, ")"))
 		pass := func() (end *fdState) {
 			w.facts.assume(w, s.Cond, true)
 			w.sitesIn(s.Cond, in)
@@ -1463,7 +1551,7 @@ func (w *fdWalker) stmtN(st ast.Stmt, chain []fdCond) (dead bool, guards []fdCon
 		if s.Cond != nil {
 			w.emitCond(fdCondOf("for(", s.Cond, ")"), s.Cond.Pos())
 		}
-		lp := &fdLoop{label: label, isLoop: true}
+		lp := &fdLoop{label: label, isLoop: true, loop: s}
 		w.loops = append(w.loops, lp)
 		w.facts = head.clone()
 		end := pass()
@@ -1489,11 +1577,14 @@ func (w *fdWalker) stmtN(st ast.Stmt, chain []fdCond) (dead bool, guards []fdCon
 		if f := w.rangeIntAsFor(s); f != nil {
 			return w.stmtN(f, chain)
 		}
+		if f := w.rangeSliceAsFor(s); f != nil {
+			return w.stmtN(f, chain)
+		}
 		label := w.label
 		w.label = ""
 		w.sitesIn(s.X, chain)
 		w.emitCond(fdCondOf("range(", s.X, ")"), s.X.Pos())
-		in := fdWith(chain, fdCondOf("range(", s.X, ")"))
+		in := fdWith(w.staleAfter(chain, s), fdCondOf("range(", s.X, ")"))
 		pass := func() (end *fdState) {
 			for _, e := range []ast.Expr{s.Key, s.Value} {
 				if e != nil {
@@ -1522,7 +1613,10 @@ func (w *fdWalker) stmtN(st ast.Stmt, chain []fdCond) (dead bool, guards []fdCon
 			all = append(all, cl.(*ast.CaseClause).List...)
 		}
 		f0 := w.facts
-		w.loops = append(w.loops, &fdLoop{label: w.label})
+		sw := &fdLoop{label: w.label}
+		var outs []*fdState
+		hasDefault := false
+		w.loops = append(w.loops, sw)
 		w.label = ""
 		defer func(n int) { w.loops = w.loops[:n] }(len(w.loops) - 1)
 		for _, cl := range s.Body.List {
@@ -1555,10 +1649,12 @@ func (w *fdWalker) stmtN(st ast.Stmt, chain []fdCond) (dead bool, guards []fdCon
 			}
 			w.emitCond(k, cc.Pos())
 			w.facts = f0.clone()
-			w.stmts(cc.Body, fdWith(chain, k))
+			hasDefault = hasDefault || cc.List == nil
+			if !w.stmts(cc.Body, fdWith(chain, k)) {
+				outs = append(outs, w.facts)
+			}
 		}
-		w.facts = f0.clone()
-		w.facts.killWritten(w, s.Body)
+		w.facts = w.afterSwitch(f0, sw, outs, hasDefault, s.Body)
 	case *ast.TypeSwitchStmt:
 		if s.Init != nil {
 			w.stmt(s.Init, chain)
@@ -1571,7 +1667,10 @@ func (w *fdWalker) stmtN(st ast.Stmt, chain []fdCond) (dead bool, guards []fdCon
 			x = a.X
 		}
 		f0 := w.facts
-		w.loops = append(w.loops, &fdLoop{label: w.label})
+		sw := &fdLoop{label: w.label}
+		var outs []*fdState
+		hasDefault := false
+		w.loops = append(w.loops, sw)
 		w.label = ""
 		defer func(n int) { w.loops = w.loops[:n] }(len(w.loops) - 1)
 		for _, cl := range s.Body.List {
@@ -1590,14 +1689,21 @@ func (w *fdWalker) stmtN(st ast.Stmt, chain []fdCond) (dead bool, guards []fdCon
 			}
 			w.emitCond(k, cc.Pos())
 			w.facts = f0.clone()
-			w.stmts(cc.Body, fdWith(chain, k))
+			hasDefault = hasDefault || cc.List == nil
+			if !w.stmts(cc.Body, fdWith(chain, k)) {
+				outs = append(outs, w.facts)
+			}
 		}
-		w.facts = f0.clone()
-		w.facts.killWritten(w, s.Body)
+		w.facts = w.afterSwitch(f0, sw, outs, hasDefault, s.Body)
 	case *ast.ReturnStmt:
 		w.sitesIn(st, chain)
 		if len(s.Results) > 0 {
-			w.emit("ret", func(c *fdCtx) string { return c.exprs(s.Results) }, chain, s.Pos())
+			w.emit("ret", func(c *fdCtx) string {
+				if c.namedResults(s.Results) {
+					return "·" // exactly the named results, in order: the bare return
+				}
+				return c.exprs(s.Results)
+			}, chain, s.Pos())
 		} else if w.hasResults {
 			// a bare return of the named results: its presence under its conditions is
 			// what makes `if err != nil { return }` a propagation site
@@ -1610,6 +1716,12 @@ func (w *fdWalker) stmtN(st ast.Stmt, chain []fdCond) (dead bool, guards []fdCon
 		}
 		if rg := w.exitOf[s]; rg != nil && rg.entered {
 			if x := rg.exitAssign(s); x != nil {
+				if red, changed := w.dropSelfPairs(x); changed {
+					if red == nil {
+						return false, nil
+					}
+					x = red
+				}
 				w.sitesIn(x, chain)
 				w.assignItem(x)
 				w.facts.effects(w, x)
@@ -1885,6 +1997,10 @@ type fdResult struct {
 	// functions compared against upstream's function without the parameters that
 	// every upstream caller derives from another parameter
 	Derived []string
+	// functions whose fork parameter is a pure method of upstream's parameter, applied by every caller
+	Lifted []string
+	// one-expression functions on one side only that are read as their expression ("side:name")
+	Transparent []string
 	// package-level variables of the fork that upstream has under another name
 	// (fork name -> upstream name), matched by definition
 	Renamed map[string]string
@@ -1911,6 +2027,9 @@ func ForkDiff(fork, up *packages.Package, files map[string]bool, laxObjs map[typ
 	}
 	align := map[string][]int{}
 	derived := map[string]map[int]fdDerived{} // upstream parameters read as Pj.M()
+	lifts := map[string]map[int]string{}      // fork parameters read as Pj.M()
+	fs.liftArgs = map[types.Object]map[int]string{}
+	fs.transparent, us.transparent = map[types.Object]*fdTransparentFn{}, map[types.Object]*fdTransparentFn{}
 	for _, k := range keysOf(fs.funcs) {
 		fd := fs.funcs[k]
 		fo, _ := fork.TypesInfo.Defs[fd.Name].(*types.Func)
@@ -1919,6 +2038,11 @@ func ForkDiff(fork, up *packages.Package, files map[string]bool, laxObjs map[typ
 			if fo != nil && !fdReferenced(fork, fo, fd) {
 				// dead code: an unexported function nobody refers to cannot change what the package does
 				res.FuncsUnreferenced = append(res.FuncsUnreferenced, k)
+				continue
+			}
+			if t := fdTransparent(fs, fo, fd); t != nil {
+				fs.transparent[fo] = t
+				res.Transparent = append(res.Transparent, "fork:"+k)
 				continue
 			}
 			res.FuncsOnlyFork = append(res.FuncsOnlyFork, k)
@@ -1948,6 +2072,15 @@ func ForkDiff(fork, up *packages.Package, files map[string]bool, laxObjs map[typ
 			}
 		}
 		if !ok {
+			// the fork's parameter is M() of upstream's parameter, applied by every fork caller
+			if m2, lifted := fdLiftedParams(fs, fo, fd, uo.Type().(*types.Signature)); lifted != nil {
+				m, ok = m2, true
+				lifts[k] = lifted
+				fs.liftArgs[fo] = lifted
+				res.Lifted = append(res.Lifted, k)
+			}
+		}
+		if !ok {
 			res.SigMismatch = append(res.SigMismatch, k)
 		}
 		align[k] = m
@@ -1961,8 +2094,14 @@ func ForkDiff(fork, up *packages.Package, files map[string]bool, laxObjs map[typ
 	}
 	for _, k := range keysOf(us.funcs) {
 		if _, ok := fs.funcs[k]; !ok {
+			uo, _ := up.TypesInfo.Defs[us.funcs[k].Name].(*types.Func)
+			if t := fdTransparent(us, uo, us.funcs[k]); t != nil {
+				us.transparent[uo] = t
+				res.Transparent = append(res.Transparent, "upstream:"+k)
+				continue
+			}
 			res.FuncsOnlyUp = append(res.FuncsOnlyUp, k)
-			if uo, _ := up.TypesInfo.Defs[us.funcs[k].Name].(*types.Func); uo != nil {
+			if uo != nil {
 				us.onlyHere[uo] = true
 			}
 		}
@@ -1995,12 +2134,21 @@ func ForkDiff(fork, up *packages.Package, files map[string]bool, laxObjs map[typ
 			for i, d := range derived[k] {
 				params[sig.Params().At(i)] = fmt.Sprintf("P%d.%s()", d.from, d.method)
 			}
+		} else {
+			for i, meth := range lifts[k] {
+				params[sig.Params().At(i)] = fmt.Sprintf("P%d.%s()", m[i], meth)
+			}
 		}
 		w := &fdWalker{s: s, fd: fd, fn: k, hasResults: sig.Results().Len() > 0}
 		inl := fdSingleDefs(fd, s.pkg.TypesInfo, s.extraFields)
+		fdModelCutPrefix(fd, s.pkg.TypesInfo, inl)
 		w.prepare(fd, inl)
 		w.ctx = func() *fdCtx {
 			return &fdCtx{s: s, params: params, locals: map[types.Object]string{}, inline: inl, busy: map[types.Object]bool{}, w: w}
+		}
+		// a local that every return statement returns at position i is the named result i
+		for v, i := range fdResultLocals(fd, s.pkg.TypesInfo, sig, inl, w.noFacts) {
+			params[v] = fmt.Sprintf("R%d", i)
 		}
 		w.tracked = fdTracked(fd, s.pkg.TypesInfo, sig, inl)
 		for o, m := range w.merge {
@@ -2025,6 +2173,25 @@ func ForkDiff(fork, up *packages.Package, files map[string]bool, laxObjs map[typ
 		res.Compared = append(res.Compared, k)
 		f, fi := sitesOf(fs, k, align[k])
 		u, ui := sitesOf(us, k, nil)
+		// Reading a range loop over a slice as its counting loop is exact where its
+		// conditions hold, and so is leaving it as it stands: when the two sides do not
+		// agree, the other combinations of the two readings are tried (any combination
+		// under which the sides agree shows the correspondence).
+		if fs.usedRangeSlice || us.usedRangeSlice {
+			best := fdUnmatched(f, u) + fdUnmatched(fi, ui)
+			for _, combo := range [][2]bool{{true, true}, {true, false}, {false, true}} {
+				if best == 0 {
+					break
+				}
+				fs.noRangeSlice, us.noRangeSlice = combo[0], combo[1]
+				f2, fi2 := sitesOf(fs, k, align[k])
+				u2, ui2 := sitesOf(us, k, nil)
+				if n := fdUnmatched(f2, u2) + fdUnmatched(fi2, ui2); n < best {
+					best, f, fi, u, ui = n, f2, fi2, u2, ui2
+				}
+			}
+			fs.noRangeSlice, us.noRangeSlice, fs.usedRangeSlice, us.usedRangeSlice = false, false, false, false
+		}
 		for i := range fi {
 			for j := range ui {
 				if !ui[j].match && ui[j].Text == fi[i].Text {
@@ -2503,6 +2670,7 @@ type fdLoop struct {
 	label       string
 	isLoop      bool
 	conts, brks []*fdState
+	loop        *ast.ForStmt // the three-clause loop being walked (nil: range loop, switch, facts-only pass)
 }
 
 func fdSameState(a, b *fdState) bool {
